@@ -52,7 +52,9 @@ Definition DGRAM_MAXSIZE : Z := 65536.   (* UV__UDP_DGRAM_MAXSIZE *)
 Definition BATCH : nat := 20.            (* ARRAY_SIZE(m), N in uv__udp_sendmsg, ARRAY_SIZE(peers) *)
 
 (* one datagram: its sequence number (submission order on the handle) and size *)
-Record dgram := mkD { d_seq : nat; d_len : N }.
+(* d_dst: the address the application gave for it: 0 = NULL (the connected peer),
+   1 / 2 = one of two fixed destinations *)
+Record dgram := mkD { d_seq : nat; d_len : N; d_dst : nat }.
 
 (* uv_udp_send_t *)
 Record req := mkReq { q_id : nat; q_d : dgram; q_status : Z }.
@@ -66,9 +68,11 @@ Record rmsg := mkM { m_id : nat; m_len : Z; m_trunc : bool }.
 Inductive rans := RMsgs (l : list rmsg) | RErr (e : Z).
 
 Inductive op :=
-| OSend (len : N) (addr : bool)      (* uv_udp_send, one datagram of len bytes, addr != NULL *)
-| OTry (len : N) (addr : bool)       (* uv_udp_try_send *)
-| OTry2 (lens : list N) (flags : Z)  (* uv_udp_try_send2 with a batch *)
+| OSend (len : N) (addr : nat)       (* uv_udp_send, one datagram of len bytes; addr 0 = NULL *)
+| OTry (len : N) (addr : nat)        (* uv_udp_try_send *)
+| OTry2 (lens : list N) (flags : Z) (addr : nat)  (* uv_udp_try_send2 with a batch; addr 3 = 1,2 alternating *)
+| OConnect (dst : nat)               (* uv_udp_connect(addr of destination dst) *)
+| ODisconnect                        (* uv_udp_connect(NULL) *)
 | OGet                               (* the two getters and uv_is_active *)
 | ORecvStart
 | ORecvStop
@@ -83,6 +87,9 @@ Inductive event :=
 | ETry2 (seq0 : nat) (count : nat) (ret : Z)
 | ESys1 (seq : nat) (a : sans)                 (* sendmsg(datagram) = a *)
 | ESysN (seqs : list nat) (a : sans)           (* sendmmsg(datagrams) = a *)
+| EName (l : list (nat * nat))                 (* msg_name of the datagrams (seq, address) passed to uv__udp_sendmsgv / uv__udp_sendmsg1 *)
+| EConnect (dst : nat) (ret : Z)
+| EDisconnect (ret : Z)
 | ECb (id : nat) (status : Z)                  (* send_cb *)
 | EGet (size count : Z) (act : bool)
 | ERecvStart (ret : Z)
@@ -106,7 +113,7 @@ Record st := mkSt {
   active : bool;            (* UV_HANDLE_ACTIVE *)
   closing : bool;           (* UV_HANDLE_CLOSING, io_watcher.fd == -1 *)
   close_pending : bool;     (* handle is in loop->closing_handles *)
-  connected : bool;         (* UV_HANDLE_UDP_CONNECTED *)
+  peer : nat;               (* UV_HANDLE_UDP_CONNECTED and to whom: 0 = not connected *)
   mmsg : bool;              (* UV_HANDLE_UDP_RECVMMSG *)
   recving : bool;           (* recv_cb != NULL *)
   next_seq : nat;
@@ -120,39 +127,45 @@ Record st := mkSt {
 }.
 
 Definition init (conn mm : bool) (o : list sans) (r : list rans) (al : list Z) : st :=
-  mkSt [] [] 0 0 false false false false false false false conn mm false
+  mkSt [] [] 0 0 false false false false false false false (if conn then 1%nat else O) mm false
        O O O O O o r al.
 
 (* field updates *)
 Definition set_queues (w c : list req) (size count : Z) (s : st) : st :=
   mkSt w c size count (processing s) (pin s) (pout s) (fed s) (active s) (closing s)
-       (close_pending s) (connected s) (mmsg s) (recving s) (next_seq s) (next_id s)
+       (close_pending s) (peer s) (mmsg s) (recving s) (next_seq s) (next_id s)
        (next_buf s) (ncb s) (nrcb s) (os s) (orv s) (allocs s).
 Definition set_processing (b : bool) (s : st) : st :=
   mkSt (wq s) (cq s) (sq_size s) (sq_count s) b (pin s) (pout s) (fed s) (active s) (closing s)
-       (close_pending s) (connected s) (mmsg s) (recving s) (next_seq s) (next_id s)
+       (close_pending s) (peer s) (mmsg s) (recving s) (next_seq s) (next_id s)
        (next_buf s) (ncb s) (nrcb s) (os s) (orv s) (allocs s).
 (* pevents, pending queue membership, handle activity, closing flags *)
 Definition set_io (i o f a cl cp : bool) (s : st) : st :=
   mkSt (wq s) (cq s) (sq_size s) (sq_count s) (processing s) i o f a cl
-       cp (connected s) (mmsg s) (recving s) (next_seq s) (next_id s)
+       cp (peer s) (mmsg s) (recving s) (next_seq s) (next_id s)
        (next_buf s) (ncb s) (nrcb s) (os s) (orv s) (allocs s).
 Definition set_recving (b : bool) (s : st) : st :=
   mkSt (wq s) (cq s) (sq_size s) (sq_count s) (processing s) (pin s) (pout s) (fed s) (active s)
-       (closing s) (close_pending s) (connected s) (mmsg s) b (next_seq s) (next_id s)
+       (closing s) (close_pending s) (peer s) (mmsg s) b (next_seq s) (next_id s)
        (next_buf s) (ncb s) (nrcb s) (os s) (orv s) (allocs s).
 Definition set_ctr (sq id bf c rc : nat) (s : st) : st :=
   mkSt (wq s) (cq s) (sq_size s) (sq_count s) (processing s) (pin s) (pout s) (fed s) (active s)
-       (closing s) (close_pending s) (connected s) (mmsg s) (recving s) sq id
+       (closing s) (close_pending s) (peer s) (mmsg s) (recving s) sq id
        bf c rc (os s) (orv s) (allocs s).
 Definition set_os (o : list sans) (s : st) : st :=
   mkSt (wq s) (cq s) (sq_size s) (sq_count s) (processing s) (pin s) (pout s) (fed s) (active s)
-       (closing s) (close_pending s) (connected s) (mmsg s) (recving s) (next_seq s) (next_id s)
+       (closing s) (close_pending s) (peer s) (mmsg s) (recving s) (next_seq s) (next_id s)
        (next_buf s) (ncb s) (nrcb s) o (orv s) (allocs s).
 Definition set_orv (r : list rans) (al : list Z) (s : st) : st :=
   mkSt (wq s) (cq s) (sq_size s) (sq_count s) (processing s) (pin s) (pout s) (fed s) (active s)
-       (closing s) (close_pending s) (connected s) (mmsg s) (recving s) (next_seq s) (next_id s)
+       (closing s) (close_pending s) (peer s) (mmsg s) (recving s) (next_seq s) (next_id s)
        (next_buf s) (ncb s) (nrcb s) (os s) r al.
+
+Definition set_peer (p : nat) (s : st) : st :=
+  mkSt (wq s) (cq s) (sq_size s) (sq_count s) (processing s) (pin s) (pout s) (fed s) (active s)
+       (closing s) (close_pending s) p (mmsg s) (recving s) (next_seq s) (next_id s)
+       (next_buf s) (ncb s) (nrcb s) (os s) (orv s) (allocs s).
+Definition connected (s : st) : bool := negb (peer s =? 0)%nat.
 
 Definition set_pout (b : bool) (s : st) : st :=
   set_io (pin s) b (fed s) (active s) (closing s) (close_pending s) s.
@@ -261,7 +274,8 @@ Fixpoint sendmsg_loop (fx : bool) (fuel : nat) (s : st) : st * list event :=
   | O => (s, [])
   | S f =>
       let batch := firstn BATCH (wq s) in
-      let '(n, ev, o') := sendmsgv fx (map q_d batch) (os s) in
+      let '(n, ev0, o') := sendmsgv fx (map q_d batch) (os s) in
+      let ev := EName (map (fun r => (d_seq (q_d r), d_dst (q_d r))) batch) :: ev0 in
       let s1 := set_os o' s in
       if 0 <? n then
         let s2 := complete (Z.to_nat n) s1 in
@@ -282,9 +296,10 @@ Definition udp_sendmsg (fx : bool) (s : st) : st * list event :=
   end.
 
 (* uv__udp_check_before_send: < 0 is an error *)
-Definition check_before_send (s : st) (addr : bool) : Z :=
-  if addr && connected s then UV_EISCONN
-  else if negb addr && negb (connected s) then UV_EDESTADDRREQ
+Definition check_before_send (s : st) (addr : nat) : Z :=
+  let given := negb (addr =? 0)%nat in
+  if given && connected s then UV_EISCONN
+  else if negb given && negb (connected s) then UV_EDESTADDRREQ
   else 0.
 
 Definition bump_seq (k : nat) (s : st) : st :=
@@ -295,7 +310,7 @@ Definition bump_id (s : st) : st :=
 (* uv_udp_send; every call uses up one request id and one sequence number.  The event of
    the call is put in front of the system calls it makes (its result is known by then:
    past the entry check uv__udp_send returns 0). *)
-Definition udp_send (fx : bool) (s : st) (len : N) (addr : bool) : st * list event :=
+Definition udp_send (fx : bool) (s : st) (len : N) (addr : nat) : st * list event :=
   let id := next_id s in
   let seq := next_seq s in
   let s0 := bump_id (bump_seq 1 s) in
@@ -304,7 +319,7 @@ Definition udp_send (fx : bool) (s : st) (len : N) (addr : bool) : st * list eve
   else
     let empty_queue := sq_count s0 =? 0 in
     let s1 := set_active true
-                (set_queues (wq s0 ++ [mkReq id (mkD seq len) 0]) (cq s0)
+                (set_queues (wq s0 ++ [mkReq id (mkD seq len addr) 0]) (cq s0)
                             (sq_size s0 + Z.of_N len) (sq_count s0 + 1) s0) in
     if empty_queue && negb (processing s1) then
       let '(s2, ev) := udp_sendmsg fx s1 in
@@ -313,24 +328,24 @@ Definition udp_send (fx : bool) (s : st) (len : N) (addr : bool) : st * list eve
     else (set_pout true s1, [ESend id seq (Z.of_N len) 0]).
 
 (* uv_udp_try_send *)
-Definition udp_try_send (s : st) (len : N) (addr : bool) : st * list event :=
+Definition udp_try_send (s : st) (len : N) (addr : nat) : st * list event :=
   let seq := next_seq s in
   let s0 := bump_seq 1 s in
   let c := check_before_send s addr in
   if c <? 0 then (s0, [ETry seq (Z.of_N len) c])
   else if negb (sq_count s0 =? 0) then (s0, [ETry seq (Z.of_N len) UV_EAGAIN])
   else
-    let '(r, ev, o') := sendmsg1 (mkD seq len) (os s0) in
-    (set_os o' s0, ev ++ [ETry seq (Z.of_N len) (if 0 <? r then Z.of_N len else r)]).
+    let '(r, ev, o') := sendmsg1 (mkD seq len addr) (os s0) in
+    (set_os o' s0, EName [(seq, addr)] :: ev ++ [ETry seq (Z.of_N len) (if 0 <? r then Z.of_N len else r)]).
 
-Fixpoint mk_batch (seq : nat) (lens : list N) : list dgram :=
+Fixpoint mk_batch (seq : nat) (addr : nat) (lens : list N) : list dgram :=
   match lens with
   | [] => []
-  | l :: ls => mkD seq l :: mk_batch (S seq) ls
+  | l :: ls => mkD seq l (if (addr =? 3)%nat then S (seq mod 2) else addr) :: mk_batch (S seq) addr ls
   end.
 
 (* uv_udp_try_send2 *)
-Definition udp_try_send2 (fx : bool) (s : st) (lens : list N) (flags : Z) : st * list event :=
+Definition udp_try_send2 (fx : bool) (s : st) (lens : list N) (flags : Z) (addr : nat) : st * list event :=
   let seq0 := next_seq s in
   let count := length lens in
   let s0 := bump_seq count s in
@@ -338,8 +353,8 @@ Definition udp_try_send2 (fx : bool) (s : st) (lens : list N) (flags : Z) : st *
   else if negb (flags =? 0) then (s0, [ETry2 seq0 count UV_EINVAL])
   else if 0 <? sq_count s0 then (s0, [ETry2 seq0 count UV_EAGAIN])
   else
-    let '(r, ev, o') := sendmsgv fx (mk_batch seq0 lens) (os s0) in
-    (set_os o' s0, ev ++ [ETry2 seq0 count r]).
+    let '(r, ev, o') := sendmsgv fx (mk_batch seq0 addr lens) (os s0) in
+    (set_os o' s0, EName (map (fun d => (d_seq d, d_dst d)) (mk_batch seq0 addr lens)) :: ev ++ [ETry2 seq0 count r]).
 
 (* uv__udp_recv_start *)
 Definition recv_start (s : st) : st * list event :=
@@ -352,6 +367,18 @@ Definition recv_stop (s : st) : st * list event :=
   let a := if pout s then active s else false in
   (set_recving false (set_io false (pout s) (fed s) a (closing s) (close_pending s) s),
    [ERecvStop 0]).
+
+(* uv_udp_connect with an address: UV_EISCONN when connected, else connect(2) (which does
+   not fail on loopback; not an oracle) *)
+Definition UV_ENOTCONN : Z := -107.
+Definition udp_connect (s : st) (dst : nat) : st * list event :=
+  if connected s then (s, [EConnect dst UV_EISCONN])
+  else (set_peer dst s, [EConnect dst 0]).
+
+(* uv_udp_connect(NULL): uv__udp_disconnect *)
+Definition udp_disconnect (s : st) : st * list event :=
+  if connected s then (set_peer O s, [EDisconnect 0])
+  else (s, [EDisconnect UV_ENOTCONN]).
 
 (* uv_close: uv__udp_close (uv__io_close, uv__handle_stop, close the descriptor),
    uv__make_close_pending *)
@@ -368,7 +395,9 @@ Definition api (fx : bool) (s : st) (o : op) : st * list event :=
     match o with
     | OSend len addr => udp_send fx s len addr
     | OTry len addr => udp_try_send s len addr
-    | OTry2 lens flags => udp_try_send2 fx s lens flags
+    | OTry2 lens flags addr => udp_try_send2 fx s lens flags addr
+    | OConnect dst => udp_connect s dst
+    | ODisconnect => udp_disconnect s
     | ORecvStart => recv_start s
     | ORecvStop => recv_stop s
     | OClose => udp_close s
@@ -599,6 +628,28 @@ Definition handed_by (e : event) : list nat :=
   | _ => []
   end.
 Definition handed (tr : list event) : list nat := flat_map handed_by tr.
+
+(* Who receives what, according to a trace: a datagram handed over with msg_name a goes to
+   destination a, with msg_name NULL (0) to the peer the handle is connected to at that
+   moment.  [names] is the latest EName. *)
+Fixpoint name_of (seq : nat) (names : list (nat * nat)) : nat :=
+  match names with
+  | [] => O
+  | (sq, a) :: r => if (sq =? seq)%nat then a else name_of seq r
+  end.
+Fixpoint delivered (pr : nat) (names : list (nat * nat)) (tr : list event) : list (nat * nat) :=
+  match tr with
+  | [] => []
+  | e :: t =>
+      match e with
+      | EConnect dst ret => delivered (if ret =? 0 then dst else pr) names t
+      | EDisconnect ret => delivered (if ret =? 0 then O else pr) names t
+      | EName l => delivered pr l t
+      | _ =>
+          map (fun sq => (sq, let a := name_of sq names in if (a =? 0)%nat then pr else a)) (handed_by e)
+          ++ delivered pr names t
+      end
+  end.
 
 (* ------------------------------------------------------------------ *)
 (* The monitors: decidable predicates on traces.  [mon] watches the send side,
